@@ -134,3 +134,44 @@ package check
 //@   props C06 C11
 //@   at call append#0 before assert[location-is-attributed-to-the-workers-file] streq(arg1[0].StrFile, fourFileChan.strFile) && arg1[0].Loc == oneLoc
 //@ end
+
+// ---- C15: members of a class come from EVERY definition of the class name ----
+// A class may be declared in several files; when it is not declared in the current file all its definitions are
+// examined (already visited ones are skipped, the scan goes on).
+//@ func (*AllProject).getClassTypeInfoList
+//@   props C15 C01
+//@   requires repeatTypeList != nil && strMap != nil
+//@   loop range:createTypeList.List exits-early-only-if [every-definition-of-the-class-is-examined] false
+//@   loop range:createTypeList.List step [each-definition-is-tested-for-a-repeat-once] hits("IsRepeateTypeInfo#1") == prev(hits("IsRepeateTypeInfo#1")) + 1
+// the visited list is what stops the walk on inheritance cycles: it must record exactly the definition just examined
+//@   at call append#0 before assert[C15,C01,visited-list-records-the-definition-just-examined] arg0 == repeatTypeList.List && arg1[0] == createBestType && createBestType != nil
+//@   at call append#4 before assert[C15,C01,visited-list-records-the-definition-just-examined] arg0 == repeatTypeList.List && arg1[0] == oneCreate
+//@   unchecked typeinv:CreateTypeList.0(repeatTypeList)#0 entries of the project type table are non-nil by construction (rebuidCreateTypeMap); the element heap is havocked by the recursive calls, so the fact does not survive the loops
+//@   unchecked typeinv:CreateTypeList.0(repeatTypeList)#1 as above
+//@   unchecked typeinv:CreateTypeList.0(repeatTypeList)#2 as above
+//@   unchecked typeinv:CreateTypeList.0(repeatTypeList)#3 as above
+//@ end
+
+// the type-level walk that calls back into getClassTypeInfoList; under contract so that the representation
+// invariant of the visited list (no nil entry) is carried through the mutual recursion
+//@ func (*AllProject).getInLineAllNormalAnnotateClass
+//@   props C15
+//@   requires repeatTypeList != nil && strMap != nil
+//@ end
+
+// ---- C19: workspace symbols of the locals of a scope ----
+// every local that is not filtered out (in nested scopes: neither a function nor a table) is collected and has its
+// members searched - a table local of a nested scope still contributes its member functions.
+//@ func (*resultSorter).getLocVarMapsSymbols
+//@   props C19
+//@   loop range:locVarMap step [unfiltered-local-is-collected-and-its-members-searched] varLen > 0 && !hasPrefix && !(onlyFunc && vars.SubMaps == nil && vars.ReferFunc == nil)
+//@        ==> hits("collect#0") == prev(hits("collect#0")) + 1 && hits("getVarmapsSymbols#0") == prev(hits("getVarmapsSymbols#0")) + 1
+//@   at call getVarmapsSymbols#0 before assert[members-searched-under-the-locals-name] arg1 == vars.SubMaps && streq(arg3, strName) && arg5 == onlyFunc
+//@   loop range:locVarMap exits-early-only-if [every-local-of-the-scope-is-visited] false
+//@ end
+// member filter: in nested scopes only function members are offered; nothing else is dropped
+//@ func (*resultSorter).getVarmapsSymbols
+//@   props C19
+//@   loop range:varmaps step [member-is-collected-unless-filtered] !(onlyFunc && subOneVar.ReferFunc == nil) ==> hits("collect#0") == prev(hits("collect#0")) + 1
+//@   loop range:varmaps exits-early-only-if [every-member-is-visited] false
+//@ end
